@@ -298,7 +298,7 @@ func (pr *printer) lv(l *LV) {
 	if l.Rest {
 		pr.w("@")
 	}
-	pr.w(l.Name)
+	pr.w(varName(l.Name))
 	for _, ix := range l.Indices {
 		pr.w("[")
 		pr.expr(ix, false)
@@ -447,6 +447,24 @@ func (pr *printer) form(f Form) {
 	}
 }
 
+// varName prints a variable name: bare when it only has characters that may
+// appear unquoted after $, else single-quoted.
+func varName(n string) string {
+	ok := n != ""
+	for i := 0; i < len(n); i++ {
+		c := n[i]
+		switch {
+		case c >= 'a' && c <= 'z', c >= 'A' && c <= 'Z', c >= '0' && c <= '9', c == '-', c == '_', c == ':', c == '~':
+		default:
+			ok = false
+		}
+	}
+	if ok {
+		return n
+	}
+	return quoteSingle(n)
+}
+
 func isBareSafe(s string) bool {
 	if s == "" {
 		return false
@@ -526,7 +544,7 @@ func (pr *printer) expr(e Expr, afterVar bool) {
 		if e.Explode {
 			pr.w("@")
 		}
-		pr.w(e.Name)
+		pr.w(varName(e.Name))
 	case *Capture:
 		pr.w("(")
 		pr.chunk(e.Body, "; ")
